@@ -18,12 +18,12 @@ import (
 )
 
 type HbCfg struct {
-	Kind   map[string]string `json:"kind"`
-	Init   bool              `json:"init"`
-	Sched  []string          `json:"sched"`
-	Unsafe bool              `json:"unsafe"`
-	Seq    []string          `json:"seq"`     // sequential history mode: start | stop | rement | addent, one observation window per operation
-	Periods []int            `json:"periods"` // period mode: heartbeat timeouts in milliseconds
+	Kind    map[string]string `json:"kind"`
+	Init    bool              `json:"init"`
+	Sched   []string          `json:"sched"`
+	Unsafe  bool              `json:"unsafe"`
+	Seq     []string          `json:"seq"`     // sequential history mode: start | stop | rement | addent, one observation window per operation
+	Periods []int             `json:"periods"` // period mode: heartbeat timeouts in milliseconds
 }
 type HbOp struct {
 	P     string `json:"p"`
@@ -54,8 +54,8 @@ type HbLine struct {
 const hbPeriod = 100 * time.Millisecond
 
 type hbObs struct {
-	mu      sync.Mutex
-	ticks   []struct {
+	mu    sync.Mutex
+	ticks []struct {
 		ch  string
 		ctr uint64
 	}
